@@ -13,14 +13,14 @@ pub mod c09;
 pub mod c11;
 pub mod c12;
 
-pub fn dispatch(ctx: &Ctx, replay: Option<&Value>, _rest: &[String]) -> i32 {
+pub fn dispatch(ctx: &Ctx, replay: Option<&Value>, rest: &[String]) -> i32 {
     match ctx.id.as_str() {
         "C01" => c01::run(ctx, replay),
         "C02" => c02::run(ctx, replay),
         "C03" => c03::run(ctx, replay),
         "C04" => c04::run(ctx, replay),
         "C05" => c05::run(ctx, replay),
-        "C06" => c06::run(ctx, replay),
+        "C06" => c06::run(ctx, replay, rest),
         "C07" => c07::run(ctx, replay),
         "C08" => c08::run(ctx, replay),
         "C09" => c09::run(ctx, replay),
